@@ -406,6 +406,26 @@ func boundaryCorpus() []corpusCase {
 			rn.o.Fail("message0-roundtrip", k, "a message with a payload of exactly payload.MaxSize bytes (%d in all) is not accepted: %s", len(b), trunc(rep.obs, 60))
 		}
 	})
+	// --- consensus: every message type, with and without StateRootInHeader; recovery messages with / without the
+	// embedded PrepareRequest and with / without the preparation hash: valid bytes must decode and re-encode ---
+	for _, sr := range []bool{false, true} {
+		name := map[bool]string{false: "consensus0", true: "consensus1"}[sr]
+		for _, typ := range consensusTypes {
+			for _, opt := range []recOpts{{true, false}, {false, true}, {false, false}} {
+				if typ != 0x41 && opt != (recOpts{true, false}) {
+					continue
+				}
+				typ, opt, name, sr := typ, opt, name, sr
+				add(func(rn *runner, k int) {
+					g := newG(prng.New(uint64(typ)*7 + 1))
+					g.allowInvalid = false
+					sw := &segWriter{}
+					genConsensusMessage(g, io.NewBinWriterFromIO(sw), typ, sr, &opt)
+					rn.validRaw(k, codecByName[name], sw.buf)
+				})
+			}
+		}
+	}
 	// --- consensus: recovery message arrays at and over the 255 cap ---
 	for _, n := range []int{255, 256} {
 		sw := io.NewBufBinWriter()
@@ -424,7 +444,7 @@ func boundaryCorpus() []corpusCase {
 		sw.WriteVarUint(0)
 		sw.WriteVarUint(0)
 		sw.WriteVarUint(0)
-		add(rawCase("consensus", sw.Bytes()))
+		add(rawCase("consensus0", sw.Bytes()))
 	}
 	return cs
 }
